@@ -70,6 +70,9 @@ Section Missing.
     destruct ext as [[[[e0 e1] e2] e3]|], shape, center, radius, res, ul; repeat step; cbn; auto.
   Qed.
 
+  Lemma make_area_cases e s : make_area OP e s = Raised \/ make_area OP e s = Area e s.
+  Proof. unfold make_area. destruct e as [[[? ?] ?] ?]. destruct (_ || _); auto. destruct (_ || _); auto. Qed.
+
   Definition shape_given (a : args (T:=T)) : bool := has (a_shape a) || (has (a_height a) && has (a_width a)).
   Definition sufficient_ext (a : args (T:=T)) : bool :=
     k_ext (has (a_extent a)) (shape_given a) (has (a_center a)) (has (a_radius a)) (has (a_resolution a)) (has (a_ul a)).
@@ -106,7 +109,7 @@ Section Missing.
              | _, _ => extrap area_extent shape0 center0 radius res ul0 u
              end) with
       | Err => True
-      | Ok (Some e, Some s, _) => if (fst s =? 0) || (snd s =? 0) then True else
+      | Ok (Some e, Some s, _) =>
           k_ext (has ext) b (has center) (has radius) (has res) (has ul) = true /\
           k_shape (has ext) b (has center) (has radius) (has res) (has ul) = true
       | Ok (e, s, _) =>
@@ -121,14 +124,13 @@ Section Missing.
           pose proof (extrapolate_presence a b c d e f g) as HP; unfold k_ext, k_shape, k_radius2, k_radius1 in HP;
           destruct (extrap a b c d e f g) as [[[[?|] [?|]] ?]|]; auto;
           cbn [has orb andb] in *; destruct HP as (He & Hs & _); rewrite <- ?He, <- ?Hs; auto end).
-      all: try (destruct (_ || _); cbn; auto).
-      all: destruct (_ || _); auto. }
+      all: try (destruct (_ || _); cbn; auto). }
     destruct ht as [h|], wd as [w|]; cbn [bind has andb orb]; auto.
     - destruct (validate2_cases shape (h, w)) as [-> | ->]; cbn [bind]; auto.
       specialize (HS (Some (h, w)) (has shape || true)). rewrite orb_true_r in HS. specialize (HS eq_refl).
       rewrite orb_true_r.
-      destruct (do shape0 <- _; _) as [[[[e|] [s|]] d]|]; auto; destruct (_ || _); auto.
+      destruct (do shape0 <- _; _) as [[[[e|] [s|]] d]|]; auto; destruct (make_area_cases e s) as [-> | ->]; auto.
     - specialize (HS shape (has shape || false)). rewrite orb_false_r in *. specialize (HS eq_refl).
-      destruct (do shape0 <- _; _) as [[[[e|] [s|]] d]|]; auto; destruct (_ || _); auto.
+      destruct (do shape0 <- _; _) as [[[[e|] [s|]] d]|]; auto; destruct (make_area_cases e s) as [-> | ->]; auto.
   Qed.
 End Missing.
